@@ -19,16 +19,6 @@ Import ListNotations.
 Require Import MV.Ctrl.BlockSyntax MV.Generated.C02_gen MV.Ctrl.BlockVars MV.Ctrl.BlockVarsProofs
                MV.Ctrl.Tracing MV.Ctrl.TracingProofs.
 
-Lemma carried_in_of_state_complete (c : ctx) x : In x (modified c) -> In x (live_in c) -> In x (state c).
-Proof. intros HM HL. exact (proj1 (proj2 (state_complete_lemma c x HM)) HL). Qed.
-
-Lemma outputs_of_state_complete (c : ctx) x :
-  In x (modified c) -> In x (live_out c) -> In x (firstn (nouts c) (state c)).
-Proof.
-  intros HM HL. destruct (proj1 (state_complete_lemma c x HM) HL) as [i [Hi Hlt]].
-  eapply index_of_firstn; eassumption.
-Qed.
-
 Theorem tracing_if_sound : forall (val : Type) (c : ctx) (cond : bool) (body orelse : block val) (s : store val),
   writes_only val (modified c) body -> writes_only val (modified c) orelse ->
   respects val (live_in c) (live_out c) orelse ->
